@@ -3,7 +3,6 @@ package httpcluster
 import (
 	"context"
 	"iter"
-	"maps"
 
 	"github.com/robbyt/go-supervisor/runnables/httpserver"
 )
@@ -260,6 +259,25 @@ func processExistingServer(
 	}
 }
 
+// unusedKey extends key with ":stop" until it is neither a current or desired server id
+// nor a key already present in the pending map.
+func unusedKey(
+	key string,
+	current map[string]*serverEntry,
+	desired map[string]*httpserver.Config,
+	pending map[string]*serverEntry,
+) string {
+	for {
+		_, inCurrent := current[key]
+		_, inDesired := desired[key]
+		_, inPending := pending[key]
+		if !inCurrent && !inDesired && !inPending {
+			return key
+		}
+		key += ":stop"
+	}
+}
+
 // buildPendingEntries creates a new entries collection based on the desired state.
 // It uses the current entries as the previous state and applies the same logic as newEntries.
 func (e *entries) buildPendingEntries(desired entriesManager) entriesManager {
@@ -278,7 +296,15 @@ func (e *entries) buildPendingEntries(desired entriesManager) entriesManager {
 
 	// Process existing servers (mark for stop, or update)
 	for id, oldEntry := range e.servers {
-		maps.Insert(servers, processExistingServer(id, oldEntry, desiredConfigs[id]))
+		for key, entry := range processExistingServer(id, oldEntry, desiredConfigs[id]) {
+			if key != id {
+				// Derived key of a restart's stop entry. Server ids are arbitrary strings,
+				// so id+":stop" may itself be a server id (or another derived key); a
+				// collision would silently drop one of the two entries.
+				key = unusedKey(key, e.servers, desiredConfigs, servers)
+			}
+			servers[key] = entry
+		}
 	}
 
 	// Process new servers
